@@ -107,6 +107,11 @@ func (s *Translator) translateNodePatternToStep(nodePattern *cypher.NodePattern,
 		} else {
 			currentStep := part.TraversalSteps[numSteps-1]
 
+			if currentStep.Edge == nil {
+				// Hand-built models (the query builders) can place two node patterns next to each other
+				return fmt.Errorf("expected a relationship pattern between node patterns %s and %s", currentStep.LeftNode.Identifier, bindingResult.Binding.Identifier)
+			}
+
 			// Set the right node pattern identifier
 			currentStep.RightNode = bindingResult.Binding
 			currentStep.RightNodeBound = bindingResult.AlreadyBound
